@@ -356,3 +356,59 @@ Definition deploy_all (dsl : bool) (tgt : list string) (man : list entry) : list
 (* case = (manifest, package file is DSL, accepted by Manifest.validate, accepted by the deployment's checks) *)
 Definition check_man2 (c : list entry * bool * bool * bool) : bool :=
   let '(man, dsl, v, dpl) := c in Bool.eqb (validate man) v && Bool.eqb (deploy_ok dsl man) dpl.
+
+(* ---------------------------------------------------------------- working directories that already hold links *)
+(* [pre]: the symbolic links that exist before the archive is staged, (path of the link, what it points at), both
+   normalised absolute paths.  d is os.path.realpath(destination): no link is d or a directory on the way to d
+   ([real_dir]). *)
+Definition links := list (list string * list string).
+Definition real_dir (pre : links) (d : list string) : bool := forallb (fun l => negb (lprefixb (fst l) d)) pre.
+
+(* throughExistingLink(path) of the repaired code: path, or a directory between the destination (excluded) and
+   path, is a symbolic link *)
+Definition through_pre (d : list string) (pre : links) (p : list string) : bool :=
+  existsb (fun l => lprefixb d (fst l) && negb (list_eqb d (fst l)) && lprefixb (fst l) p) pre.
+
+Definition pre_member_ok (d : list string) (pre : links) (m : member) : bool :=
+  negb (through_pre d pre (snd (mpath d m))) &&
+  match snd m with
+  | KHard _ => match mtarget d m with Some tp => negb (through_pre d pre (snd tp)) | None => true end
+  | _ => true
+  end.
+
+(* the whole repaired check of StageReference *)
+Definition tar_check_pre (pre : links) (d : list string) (ms : list member) : bool :=
+  tar_check d ms && forallb (pre_member_ok d pre) ms.
+
+(* the check before the repair of F18e: os.path.realpath(path), computed before the extraction, is inside d *)
+Definition link_fuel : nat := 40.               (* links followed in one resolution (Linux: ELOOP beyond 40) *)
+Definition realpath (pre : links) (p : list string) : list string := resolve false pre link_fuel p.
+Definition pre_member_ok_old (d : list string) (pre : links) (m : member) : bool :=
+  inside_str (false, d) (false, realpath pre (snd (mpath d m))) &&
+  match snd m with
+  | KHard _ => match mtarget d m with Some tp => inside_str (false, d) (false, realpath pre (snd tp)) | None => true end
+  | _ => true
+  end.
+Definition tar_check_pre_old (pre : links) (d : list string) (ms : list member) : bool :=
+  tar_check d ms && forallb (pre_member_ok_old d pre) ms.
+
+(* extraction in a file system that has the links [pre] and gets those of the archive (a link member put on
+   top of an existing link would replace it; the repaired check refuses such archives) *)
+Definition created_pre (pre : links) (d : list string) (ms : list member) (m : member) : list string :=
+  resolve (is_sym m) (pre ++ linkmap d ms)%list link_fuel (snd (mpath d m)).
+Definition hard_targets_pre (pre : links) (d : list string) (ms : list member) : list (list string) :=
+  flat_map (fun m => match snd m with
+                     | KHard _ => match mtarget d m with
+                                  | Some tp => [resolve false (pre ++ linkmap d ms)%list link_fuel (snd tp)]
+                                  | None => []
+                                  end
+                     | _ => []
+                     end) ms.
+Definition extract_pre (pre : links) (d : list string) (ms : list member) : list (list string) :=
+  (map (created_pre pre d ms) ms ++ hard_targets_pre pre d ms)%list.
+Definition stage_extract_pre (pre : links) (d : list string) (ms : list member) : list (list string) :=
+  if tar_check_pre pre d ms then extract_pre pre d ms else [].
+
+(* case = (dest, links present before, members, accepted by the implementation's check) *)
+Definition check_tar_pre (c : list string * links * list member * bool) : bool :=
+  let '(d, pre, ms, acc) := c in Bool.eqb (tar_check_pre pre d ms) acc.
